@@ -8,7 +8,7 @@ use rdp::model::link::{Link, Stream};
 use serde::{Deserialize, Serialize};
 
 pub const LEVEL: &str = "fault_enumeration";
-pub const RULE: &str = "case = (entry point Link::write | tpkt::Client::write | x224::Client::write, payload length, writer behaviour = per-call caps / Ok(0) / EINTR schedule, optional hard error injected at byte position p). Oracle against the reference framing F of the payload: bytes accepted by the writer are always a prefix of F; Ok implies all of F was accepted; a writer that never fails and accepts >= 1 byte per call implies Ok; an injected hard error before |F| implies Err; a payload that does not fit the 16-bit TPKT length implies Err with nothing written. boundary-sweep enumerates every length around the 16-bit boundaries and every error position for small frames. Non-trivial = at least one short write, an injected error, or a length within 8 of a 16-bit boundary; distinct by hash of the case.";
+pub const RULE: &str = "case = (entry point Link::write | tpkt::Client::write | x224::Client::write, payload length, writer behaviour = per-call caps / Ok(0) / EINTR schedule, optional hard error injected at byte position p). Oracle against the reference framing F of the payload: bytes accepted by the writer are always a prefix of F; Ok implies all of F was accepted; a writer that never fails and accepts >= 1 byte per call implies Ok; an injected hard error before |F| implies Err; a payload that does not fit the 16-bit TPKT length implies Err with nothing written. boundary-sweep enumerates every length around the 16-bit boundaries and every error position for small frames; all-lengths every payload length 0..=65540 at each entry point with whole and 4096-byte partial writes; sequences and 30 % of the generated cases write several messages through the same client (the reference stream is the concatenation of the frames of the messages that fit; an oversized message in between must be refused without a byte and must not disturb the next one). Non-trivial = at least one short write, an injected error, or a length within 8 of a 16-bit boundary; distinct by hash of the case.";
 
 #[derive(Serialize, Deserialize, Hash, Clone, Debug)]
 pub struct Case {
@@ -18,11 +18,14 @@ pub struct Case {
     pub schedule: Vec<WStep>,
     pub fail_at: Option<u32>,
     pub fill: u32,
+    /// lengths of further messages written through the same client afterwards
+    #[serde(default)]
+    pub more: Vec<u32>,
 }
 
-fn payload(c: &Case) -> Vec<u8> {
-    let mut x = c.fill | 1;
-    (0..c.len)
+fn payload(fill: u32, len: u32) -> Vec<u8> {
+    let mut x = fill | 1;
+    (0..len)
         .map(|_| {
             x ^= x << 13;
             x ^= x >> 17;
@@ -32,81 +35,104 @@ fn payload(c: &Case) -> Vec<u8> {
         .collect()
 }
 
+enum Layer {
+    L(Link<AdvWriter>),
+    T(tpkt::Client<AdvWriter>),
+    X(x224::Client<AdvWriter>),
+}
+
 pub fn run(c: &Case) -> Outcome {
     let mut out = Outcome::new();
-    let p = payload(c);
     let hdr: usize = match c.entry {
         0 => 0,
         1 => 4,
         _ => 7,
     };
-    let flen = p.len() + hdr;
-    let too_big = c.entry != 0 && flen > 65535;
-    let mut f: Vec<u8> = Vec::with_capacity(flen);
-    if c.entry != 0 {
-        f.extend_from_slice(&[3, 0, ((flen >> 8) & 0xFF) as u8, (flen & 0xFF) as u8]);
-    }
-    if c.entry == 2 {
-        f.extend_from_slice(&[2, 0xF0, 0x80]);
-    }
-    f.extend_from_slice(&p);
-    let short = c.schedule.iter().any(|s| !matches!(s, WStep::Cap(k) if *k as usize >= flen));
-    let near = [0x7FFFusize, 0x8000, 0xFFFF, 0x10000].iter().any(|b| (flen as i64 - *b as i64).abs() <= 8);
-    out.nontrivial(short || c.fail_at.is_some() || near);
-    out.label(["link", "tpkt", "x224"][c.entry as usize % 3]);
+    let name = ["link", "tpkt", "x224"][c.entry as usize % 3];
+    let lens: Vec<u32> = std::iter::once(c.len).chain(c.more.iter().copied()).collect();
+    let total: usize = lens.iter().map(|l| *l as usize + hdr).sum();
+    let short = c.schedule.iter().any(|s| !matches!(s, WStep::Cap(k) if *k as usize >= c.len as usize + hdr));
+    let near = lens.iter().any(|l| [0x7FFFusize, 0x8000, 0xFFFF, 0x10000].iter().any(|b| ((*l as usize + hdr) as i64 - *b as i64).abs() <= 8));
+    out.nontrivial(short || c.fail_at.is_some() || near || lens.len() > 1);
+    out.label(name);
     if short {
         out.label("short-writes");
     }
     if c.fail_at.is_some() {
         out.label("injected-error");
     }
-    if too_big {
-        out.label("too-big");
+    if lens.len() > 1 {
+        out.label("several-messages");
     }
-    let never_fails = c.fail_at.map(|p| p as usize >= flen).unwrap_or(true) && c.schedule.iter().all(|s| matches!(s, WStep::Cap(_)));
+    let never_fails = c.fail_at.map(|p| p as usize >= total).unwrap_or(true) && c.schedule.iter().all(|s| matches!(s, WStep::Cap(_)));
     let (w, acc) = AdvWriter::new(c.schedule.clone(), c.fail_at.map(|x| x as usize));
     let link = Link::new(Stream::Raw(w));
-    let entry = c.entry;
-    let (r, _) = call(move || match entry {
-        0 => {
-            let mut l = link;
-            l.write(&p)
+    let mut layer = match c.entry {
+        0 => Layer::L(link),
+        1 => Layer::T(tpkt::Client::new(link)),
+        _ => Layer::X(x224::Client::from_transport(tpkt::Client::new(link), x224::Protocols::ProtocolSSL)),
+    };
+    // the reference byte stream: the frames of all messages that fit, in order
+    let mut f: Vec<u8> = Vec::new();
+    for (k, len) in lens.iter().enumerate() {
+        let p = payload(c.fill.wrapping_add(k as u32), *len);
+        let flen = p.len() + hdr;
+        let too_big = c.entry != 0 && flen > 65535;
+        if too_big {
+            out.label("too-big");
         }
-        1 => {
-            let mut t = tpkt::Client::new(link);
-            t.write(p)
-        }
-        _ => {
-            let mut x = x224::Client::from_transport(tpkt::Client::new(link), x224::Protocols::ProtocolSSL);
-            x.write(p)
-        }
-    });
-    let got = acc.borrow();
-    let name = ["link", "tpkt", "x224"][c.entry as usize % 3];
-    let is_prefix = got.len() <= f.len() && got[..] == f[..got.len()];
-    match r {
-        Res::Panic(pi) => fail_panic(&mut out, &format!("{}.write", name), &pi),
-        Res::Ok(()) => {
-            out.label("ok");
-            if too_big {
-                out.fail(format!("write:{}:oversized-accepted", name), format!("payload of {} bytes does not fit a 16-bit TPKT length but write returned Ok; {} bytes emitted, header {:02x?}", c.len, got.len(), &got[..got.len().min(4)]));
-            } else if got[..] != f[..] {
-                out.fail(
-                    format!("write:{}:ok-but-incomplete", name),
-                    format!("write returned Ok but the stream accepted {} of {} bytes (prefix ok: {}); schedule {:?} fail_at {:?}", got.len(), f.len(), is_prefix, &c.schedule[..c.schedule.len().min(6)], c.fail_at),
-                );
+        let start = f.len();
+        if !too_big {
+            if c.entry != 0 {
+                f.extend_from_slice(&[3, 0, ((flen >> 8) & 0xFF) as u8, (flen & 0xFF) as u8]);
             }
+            if c.entry == 2 {
+                f.extend_from_slice(&[2, 0xF0, 0x80]);
+            }
+            f.extend_from_slice(&p);
         }
-        Res::Err(e) => {
-            out.label("err");
-            if too_big {
-                if !got.is_empty() {
-                    out.fail(format!("write:{}:oversized-partial", name), format!("oversized payload refused but {} bytes were already written", got.len()));
+        let before = acc.borrow().len();
+        let (r, _) = call(|| match &mut layer {
+            Layer::L(l) => l.write(&p),
+            Layer::T(t) => t.write(p.clone()),
+            Layer::X(x) => x.write(p.clone()),
+        });
+        let got = acc.borrow();
+        let is_prefix = got.len() <= f.len() && got[..] == f[..got.len()];
+        match r {
+            Res::Panic(pi) => {
+                fail_panic(&mut out, &format!("{}.write", name), &pi);
+                return out;
+            }
+            Res::Ok(()) => {
+                out.label("ok");
+                if too_big {
+                    out.fail(format!("write:{}:oversized-accepted", name), format!("message #{}: payload of {} bytes does not fit a 16-bit TPKT length but write returned Ok; {} bytes emitted, header {:02x?}", k, len, got.len() - before, &got[before..got.len().min(before + 4)]));
+                    return out;
+                } else if got[..] != f[..] {
+                    out.fail(
+                        format!("write:{}:ok-but-incomplete", name),
+                        format!("message #{} ({} bytes): write returned Ok but the stream holds {} of {} bytes (prefix ok: {}; this frame starts at {}); schedule {:?} fail_at {:?}", k, len, got.len(), f.len(), is_prefix, start, &c.schedule[..c.schedule.len().min(6)], c.fail_at),
+                    );
+                    return out;
                 }
-            } else if !is_prefix {
-                out.fail(format!("write:{}:not-a-prefix", name), format!("bytes accepted by the stream are not a prefix of the frame ({} bytes accepted)", got.len()));
-            } else if never_fails {
-                out.fail(format!("write:{}:spurious-error", name), format!("stream never failed and accepted at least one byte per call, yet write returned Err({}) after {} of {} bytes", e, got.len(), f.len()));
+            }
+            Res::Err(e) => {
+                out.label("err");
+                if too_big {
+                    if got.len() != before {
+                        out.fail(format!("write:{}:oversized-partial", name), format!("message #{}: oversized payload refused but {} bytes were written", k, got.len() - before));
+                        return out;
+                    }
+                    // refused cleanly: later messages must still go out
+                    continue;
+                } else if !is_prefix {
+                    out.fail(format!("write:{}:not-a-prefix", name), format!("message #{}: bytes accepted by the stream are not a prefix of the frames ({} bytes accepted)", k, got.len()));
+                } else if never_fails {
+                    out.fail(format!("write:{}:spurious-error", name), format!("message #{}: stream never failed and accepted at least one byte per call, yet write returned Err({}) after {} of {} bytes", k, e, got.len(), f.len()));
+                }
+                // a reported transport error ends the conversation
+                return out;
             }
         }
     }
@@ -134,9 +160,8 @@ fn schedule(s: &mut Src) -> Vec<WStep> {
     }
 }
 
-pub fn decode(s: &mut Src) -> Case {
-    let entry = s.below(3) as u8;
-    let len = match s.below(10) {
+fn gen_len(s: &mut Src) -> u32 {
+    match s.below(10) {
         0 => s.below(301) as u32,
         1 => 16370 + s.below(31) as u32,
         2 => 32750 + s.below(31) as u32,
@@ -144,7 +169,12 @@ pub fn decode(s: &mut Src) -> Case {
         4 => 70000,
         5 => s.below(70001) as u32,
         _ => s.below(64) as u32,
-    };
+    }
+}
+
+pub fn decode(s: &mut Src) -> Case {
+    let entry = s.below(3) as u8;
+    let len = gen_len(s);
     let mut sch = schedule(s);
     // a stream that never makes progress is not a fault model of interest (write_all retries EINTR forever by contract)
     if !sch.is_empty() && !sch.iter().any(|x| matches!(x, WStep::Cap(_))) {
@@ -152,7 +182,9 @@ pub fn decode(s: &mut Src) -> Case {
     }
     let flen = len + [0, 4, 7][entry as usize];
     let fail_at = if s.chance(96) { Some(s.below(flen as usize + 2) as u32) } else { None };
-    Case { entry, len, schedule: sch, fail_at, fill: s.u32() }
+    let fill = s.u32();
+    let more = if s.chance(80) { (0..1 + s.below(4)).map(|_| gen_len(s)).collect() } else { Vec::new() };
+    Case { entry, len, schedule: sch, fail_at, fill, more }
 }
 
 fn sweep(tier: Tier, part: usize, parts: usize) -> impl Iterator<Item = Case> {
@@ -167,30 +199,59 @@ fn sweep(tier: Tier, part: usize, parts: usize) -> impl Iterator<Item = Case> {
                 if sch == vec![WStep::Cap(3)] && len > 2000 && len % 7 != 0 {
                     continue;
                 }
-                v.push(Case { entry, len, schedule: sch, fail_at: None, fill: len });
+                v.push(Case { entry, len, schedule: sch, fail_at: None, fill: len, more: vec![] });
             }
         }
         // a hard error at every byte position of small frames
         for len in 0..40u32 {
             let flen = len + [0, 4, 7][entry as usize];
             for p in 0..=flen {
-                v.push(Case { entry, len, schedule: vec![], fail_at: Some(p), fill: 3 });
-                v.push(Case { entry, len, schedule: vec![WStep::Cap(2)], fail_at: Some(p), fill: 3 });
+                v.push(Case { entry, len, schedule: vec![], fail_at: Some(p), fill: 3, more: vec![] });
+                v.push(Case { entry, len, schedule: vec![WStep::Cap(2)], fail_at: Some(p), fill: 3, more: vec![] });
             }
         }
         // every fixed cap 1..n for a medium frame
         for cap in 1..=80u16 {
-            v.push(Case { entry, len: 70, schedule: vec![WStep::Cap(cap)], fail_at: None, fill: 9 });
+            v.push(Case { entry, len: 70, schedule: vec![WStep::Cap(cap)], fail_at: None, fill: 9, more: vec![] });
         }
     }
     v.into_iter().enumerate().filter(move |(i, _)| i % parts == part).map(|(_, c)| c)
+}
+
+/// every payload length 0..=65540 at every entry point, whole writes and 4096-byte partial writes
+fn all_lengths(part: usize, parts: usize) -> impl Iterator<Item = Case> {
+    (part as u32..65541 * 6).step_by(parts).map(|i| {
+        let len = i % 65541;
+        let k = i / 65541;
+        Case { entry: (k % 3) as u8, len, schedule: if k / 3 == 0 { vec![] } else { vec![WStep::Cap(4096)] }, fail_at: None, fill: len ^ 0x5A5A, more: vec![] }
+    })
+}
+
+/// several messages through one client: an oversized one between two that fit, repeated lengths, growing and shrinking sizes
+fn sequences() -> Vec<Case> {
+    let mut v = Vec::new();
+    for entry in 0..3u8 {
+        for sch in [vec![], vec![WStep::Cap(7)], vec![WStep::Cap(1000), WStep::Interrupted, WStep::Cap(1)]] {
+            for lens in [vec![10u32, 70000, 10], vec![0, 0, 0, 1], vec![65528, 65529, 65530, 65531, 65532, 65533, 5], vec![5000, 40, 5000, 40, 9000], vec![100; 40], vec![1, 2, 4, 8, 16, 32, 64, 128, 256, 512, 1024, 2048, 4096, 8192, 16384, 32768, 65000], vec![65000, 3, 65000, 3]] {
+                v.push(Case { entry, len: lens[0], schedule: sch.clone(), fail_at: None, fill: 77, more: lens[1..].to_vec() });
+                let total: u32 = lens.iter().filter(|l| **l < 65529).map(|l| l + 7).sum();
+                for frac in [1u32, 2, 3] {
+                    v.push(Case { entry, len: lens[0], schedule: sch.clone(), fail_at: Some(total / 4 * frac), fill: 78, more: lens[1..].to_vec() });
+                }
+            }
+        }
+    }
+    v
 }
 
 pub fn check(rep: &Report) {
     rep.assume("Ok(0) and EINTR results of the stream may be answered either by retrying or by reporting an error; only prefix/completeness is asserted for them");
     let tier = rep.tier;
     rep.enumerate("boundary-sweep", false, move |p, n| sweep(tier, p, n), run);
+    rep.enumerate("all-lengths", true, all_lengths, run);
+    rep.list("sequences", sequences(), run);
     rep.random("schedules", rep.tier.n(400_000, 6_000_000), 48, decode, run);
     rep.require("schedules", "short-writes", 1000);
     rep.require("schedules", "injected-error", 1000);
+    rep.require("schedules", "several-messages", 1000);
 }
